@@ -77,10 +77,10 @@ def mutableFor (cow : Nat) (id : Nat) : M Nat := do
     wr out n.items n.children
     pure out
 
-/-- `n.mutableChild(i)`: `c := n.children[i].mutableFor(n.cow); n.children[i] = c` -/
+/-- `n.mutableChild(i)` (an index outside the child list — where Go panics — reads the node itself): `c := n.children[i].mutableFor(n.cow); n.children[i] = c` -/
 def mutableChild (cow : Nat) (n : Nat) (i : Nat) : M Nat := do
   let nd ← rd n
-  let c ← mutableFor cow (nd.children.getD i 0)
+  let c ← mutableFor cow (nd.children.getD i n)
   wr n nd.items (setAt nd.children i c)
   pure c
 
@@ -111,7 +111,7 @@ def insertB (cow mx : Nat) (x : Item) : Nat → Nat → M (Option Item)
     if (findIdx nd.items x.key).2 || nd.children.isEmpty then insertHere n nd x
     else do
       let i := (findIdx nd.items x.key).1
-      let c ← rd (nd.children.getD i 0)
+      let c ← rd (nd.children.getD i n)
       if c.items.length < mx then do
         let ch ← mutableChild cow n i
         insertB cow mx x fuel ch
@@ -135,8 +135,8 @@ def insertB (cow mx : Nat) (x : Item) : Nat → Nat → M (Option Item)
 /-- the rebalancing step of `growChildAndRemove` -/
 def growB (cow mn : Nat) (n : Nat) (i : Nat) : M Unit := do
   let nd ← rd n
-  let left ← rd (nd.children.getD (i - 1) 0)
-  let right ← rd (nd.children.getD (i + 1) 0)
+  let left ← rd (nd.children.getD (i - 1) n)
+  let right ← rd (nd.children.getD (i + 1) n)
   if 0 < i ∧ mn < left.items.length then do
     let child ← mutableChild cow n i
     let stealFrom ← mutableChild cow n (i - 1)
@@ -159,7 +159,7 @@ def growB (cow mn : Nat) (n : Nat) (i : Nat) : M Unit := do
     let j := if nd.items.length ≤ i then i - 1 else i
     let child ← mutableChild cow n j
     let nd1 ← rd n
-    let mergeChild := nd1.children.getD (j + 1) 0
+    let mergeChild := nd1.children.getD (j + 1) n
     let mc ← rd mergeChild
     let ch ← rd child
     wr n (removeAt nd1.items j) (removeAt nd1.children (j + 1))
@@ -181,7 +181,7 @@ def removeB (cow mn : Nat) : Nat → Nat → Rm → M (Option Item)
     if nd.children.isEmpty then removeLeaf n nd typ
     else do
       let loc := locate nd.items typ
-      let c ← rd (nd.children.getD loc.1 0)
+      let c ← rd (nd.children.getD loc.1 n)
       let _ ← (if c.items.length ≤ mn then growB cow mn n loc.1 else pure () : M Unit)
       let nd1 ← rd n
       let loc1 := if c.items.length ≤ mn then locate nd1.items typ else loc
